@@ -28,4 +28,6 @@ Definition run (comp : Z) (inp : list Z) : list Z :=
   else if comp =? 51 then run_enc_with inp
   else if comp =? 52 then run_raw_of inp
   else if comp =? 60 then run_merge inp
+  else if comp =? 70 then run_iter_num inp
+  else if comp =? 71 then run_play inp
   else [-3].
